@@ -878,6 +878,17 @@ impl<'a, S: BitmapSlice> ZeroCopyReader for ZcReader<'a, S> { }
                     it.ensures = list(it.ensures) + ['(%s is Err && %s) ==> %s->Err_0 is EncodeMessage // [C01.%s.answered]' % (rn, wf, rn, it.name)]
     if os.environ.get('SRV_REPLIED', '1') == '1':
         add_replied(items)
+
+    # "message handling returns without panicking" (C01) is about EVERY function on the request path: an untagged failure (a possible overflow, an
+    # unwrap() / expect() / index whose precondition cannot be proved, a debug assertion) inside init, the conversions, add_dirent, the notification
+    # writers .. counts for C01 as well as for the function's own property.  Tagged clauses keep the attribution of their tag.
+    def also_c01(its):
+        for it in its:
+            if isinstance(it, Group):
+                also_c01(it.items)
+            elif isinstance(it, Fn) and 'C01' not in it.props:
+                it.props = list(it.props) + ['C01']
+    also_c01(items)
     return Unit('server', items, preludes=['base.rs', 'stdmodel.rs', 'transport.rs', 'server.rs'],
                 generic_tags={'cap': ['C02'], 'touch': ['C02'], 'ids': ['C02'], 'emit': ['C03'], 'frame': ['C01'], 'noreply': ['C01'],
                               'once': ['C01'], 'assert': ['C01'], 'store': ['C12']},
